@@ -13,7 +13,7 @@ CONSTANTS MaxN, RankVariants, NameVariants, AltVariants, AliasVariants
 
 VARIABLES par,    \* the parameters of the taxonomy
           tax,    \* the taxonomy
-          k,      \* which command: 1..NF obifind queries, NF+1..NF+NA obiannotate option sets
+          k,      \* which command: 1..NF obifind queries, then 2*NA obiannotate runs, then NL --add-lca-in runs
           exp,    \* the expected outcome
           done
 vars == <<par, tax, k, exp, done>>
@@ -91,6 +91,27 @@ AnnotCase(T, j) ==
       strs |-> [i \in 1..Len(recs) |-> StrAttrs(T, O, recs[i], "scientific_name")],
       strs_written |-> [i \in 1..Len(recs) |-> StrAttrs(T, O, recs[i], "scienctific_name")]]
 
+(* --add-lca-in: per record the set of acceptable answers [c, lo, hi] (taxon, smallest and largest acceptable       *)
+(* reported error in 1/1000) by the statement, and by the code as written (weights of synonymous ids not added)    *)
+BagOf(ids) == [i \in 1..Len(ids) |-> <<ids[i], 1 + (ids[i] % 3)>>]
+LcaSlots == <<"lca", "taxid", "family_taxid", "taxid_of">>
+LcaTols  == <<0, 500, 250, 0>>
+AccSet(T, bag, E) ==
+  \* (an acceptable error stays acceptable when it grows, up to E: the smallest one is the one whose predecessor is refused)
+  { [c |-> c, lo |-> CHOOSE v \in 0..E : LcaAccepts(T, bag, E, c, v) /\ (v = 0 \/ ~LcaAccepts(T, bag, E, c, v - 1)), hi |-> E] :
+      c \in { c \in Node(T) : LcaAccepts(T, bag, E, c, E) } }
+LcaCase(T, j) ==
+  LET all  == RIds(T)
+      E    == LcaTols[j]
+      bags == << BagOf(all), BagOf(SubSeq(all, 1, 1)), BagOf(SubSeq(all, Len(all) - ((Len(all) + 1) \div 2) + 1, Len(all))),
+                 BagOf(SubSeq(all, 1, (Len(all) + 1) \div 2)), <<<<Pick(T, j), 1>>>> >>
+      recs == [i \in 1..Len(bags) |-> [bag |-> bags[i], astaxid |-> i = Len(bags), synonyms |-> HasSynonyms(T, bags[i])]]
+  IN [slot |-> LcaSlots[j], E |-> E, lrecs |-> recs, keys |-> LcaKeys(LcaSlots[j]),
+      keysets |-> [i \in 1..Len(bags) |-> LcaKeySets(LcaSlots[j], recs[i])],
+      acc |-> [i \in 1..Len(bags) |-> AccSet(T, bags[i], E)],
+      acc_written |-> [i \in 1..Len(bags) |-> IF HasSynonyms(T, bags[i]) THEN UNION { AccSet(T, b, E) : b \in SeenBags(T, bags[i]) } ELSE {}]]
+NL == 4
+
 FindCase(T, j) ==
   LET Q == Queries(T)[j] IN
   [q |-> Q, args |-> [i \in 1..Len(Q.pats) |-> Arg(Q.pats[i])], fails |-> Fails(T, Q),
@@ -105,13 +126,13 @@ Init ==
         /\ IsRootedTree(p)
         /\ \E rv \in RankVariants, nv \in NameVariants, av \in AltVariants, w \in AliasVariants :
               par = [p |-> p, rv |-> rv, nv |-> nv, av |-> av, w |-> w]
-  /\ k \in 1..(NF + 2 * NA)
+  /\ k \in 1..(NF + 2 * NA + NL)
   /\ tax = <<>> /\ exp = <<>> /\ done = FALSE
 Compute ==
   /\ ~done
   /\ LET T == MkTax(par.p, par.rv, par.nv, par.av, par.w) IN
      /\ tax' = T
-     /\ exp' = (IF k <= NF THEN FindCase(T, k) ELSE AnnotCase(T, k - NF))
+     /\ exp' = (IF k <= NF THEN FindCase(T, k) ELSE IF k <= NF + 2 * NA THEN AnnotCase(T, k - NF) ELSE LcaCase(T, k - NF - 2 * NA))
   /\ done' = TRUE /\ UNCHANGED <<par, k>>
 Next == Compute
 Spec == Init /\ [][Next]_vars
@@ -173,7 +194,7 @@ LineLaws == done =>
 
 (* obiannotate: a merged taxid is annotated as the taxon it stands for; the taxid itself is left as it was;      *)
 (* a record without taxid is annotated as taxid 1; the path text grows by one entry per level                    *)
-AnnotLaws == (done /\ k > NF) =>
+AnnotLaws == (done /\ k > NF /\ k <= NF + 2 * NA) =>
   LET O == exp.opts IN
   /\ \A i \in 1..Len(tax.alias) :
         LET a == Rec(tax.alias[i][1])  b == Rec(tax.alias[i][2]) IN
@@ -190,7 +211,6 @@ AnnotLaws == (done /\ k > NF) =>
 
 (* --add-lca-in: with zero tolerance the exact LCA of C14 and the error 0 are the only answer accepted; the exact  *)
 (* LCA is acceptable under every tolerance; a larger tolerance accepts more; the attribute names                 *)
-BagOf(ids) == [i \in 1..Len(ids) |-> <<ids[i], 1 + (ids[i] % 3)>>]
 LcaLaws == (done /\ k = NF + 1) =>
   LET all == RIds(tax)
       bags == { BagOf(all), BagOf(SubSeq(all, 1, 1)), BagOf(SubSeq(all, Len(all) - ((Len(all) + 1) \div 2) + 1, Len(all))) }
@@ -206,6 +226,16 @@ LcaLaws == (done /\ k = NF + 1) =>
      /\ LcaKeys("taxid") = [taxid |-> "taxid", name |-> "scientific_name", error |-> "lca_error"]
      /\ LcaKeys("family_taxid") = [taxid |-> "family_taxid", name |-> "family_name", error |-> "family_error"]
      /\ LcaKeys("my") = [taxid |-> "my_taxid", name |-> "my_name", error |-> "my_error"]
+
+(* the exported sets of acceptable answers: never empty, the exact LCA always in it, alone with error 0 at zero    *)
+(* tolerance; what the code as written may answer beyond the statement needs synonymous ids and a tolerance        *)
+LcaCaseLaws == (done /\ k > NF + 2 * NA) =>
+  \A i \in 1..Len(exp.lrecs) :
+     LET bag == exp.lrecs[i].bag   x == SeqLCA(tax, { bag[j][1] : j \in 1..Len(bag) }) IN
+     /\ [c |-> x, lo |-> 0, hi |-> exp.E] \in exp.acc[i]
+     /\ exp.E = 0 => exp.acc[i] = { [c |-> x, lo |-> 0, hi |-> 0] }
+     /\ ~(exp.acc_written[i] \subseteq exp.acc[i]) => (exp.lrecs[i].synonyms /\ exp.E > 0)
+     /\ \A c \in Node(tax) : (\E v \in 0..exp.E : LcaAccepts(tax, bag, exp.E, c, v)) <=> (\E a \in exp.acc[i] : a.c = c)
 
 (* the verdict operators accept the expected output in any order inside a block, and refuse a line lost, doubled, *)
 (* or moved to another block                                                                                      *)
